@@ -200,6 +200,9 @@ Arguments trop : clear implicits.
 Section Contract.
   Context {SI RI : Type}.
   Notation call := (tcall SI RI).
+  (* is a failed write of this item fatal to the writer?  (client: a cancellation is, a request
+     is not - it fails only that call; server: every response is) *)
+  Variable fatal_send : SI -> bool.
 
   (* monitor state carried across polls *)
   Record cst := {
@@ -208,7 +211,7 @@ Section Contract.
     failed : bool;        (* poll_ready / poll_flush / poll_close answered Err *)
     rfailed : bool;       (* poll_next answered Err *)
     dirty : bool;         (* an item was written since the last poll_flush -> Ready(Ok) *)
-    last_flush_pending : bool;  (* the last poll_flush call of the current poll answered Pending *)
+    last_flush_pending : bool;  (* the last poll_flush / poll_close call of the current poll answered Pending *)
     streak : nat }.       (* consecutive poll_ready/poll_flush calls without progress *)
   Definition cst0 := {| licensed := false; closed := false; failed := false; rfailed := false; dirty := false;
                         last_flush_pending := false; streak := 0 |}.
@@ -224,9 +227,12 @@ Section Contract.
        {| licensed := match r with TOk => true | _ => false end; closed := closed s;
           failed := match r with TErr => true | _ => failed s end; rfailed := rfailed s; dirty := dirty s;
           last_flush_pending := last_flush_pending s; streak := S (streak s) |})
-    | CSend _ _ =>
+    | CSend m r =>
       (licensed s && negb (closed s) && negb (failed s),
-       {| licensed := false; closed := closed s; failed := failed s; rfailed := rfailed s; dirty := true;
+       {| licensed := false; closed := closed s;
+          failed := match r with SErr => failed s || fatal_send m | SOk => failed s end;
+          rfailed := rfailed s;
+          dirty := match r with SOk => true | SErr => dirty s end;
           last_flush_pending := false; streak := 0 |})
     | CFlush r =>
       (S (streak s) <=? max_streak,
@@ -236,11 +242,14 @@ Section Contract.
           last_flush_pending := match r with TPending => true | _ => false end;
           streak := S (streak s) |})
     | CClose r =>
+      (* poll_close flushes what is buffered and then closes: a pending close holds the waker,
+         a completed one leaves nothing unflushed *)
       (true,
        {| licensed := licensed s; closed := true;
           failed := match r with TErr => true | _ => failed s end; rfailed := rfailed s;
-          dirty := dirty s;
-          last_flush_pending := last_flush_pending s; streak := streak s |})
+          dirty := match r with TOk => false | _ => dirty s end;
+          last_flush_pending := match r with TPending => true | _ => false end;
+          streak := streak s |})
     | CNext r =>
       (true,
        {| licensed := licensed s; closed := closed s; failed := failed s;
